@@ -51,13 +51,13 @@ def cost(tier, seed, info):
         if b['result'].startswith('esc'):
             out['failures'].append(Failure({'family': f, 'n': 1024, 'mode': 'work'}, 'escape', 'family %s: %s' % (f, b['result'])))
     # (2) CPU time: modest sizes in the quick tier, large in the thorough tier / for suspects
-    sizes = (1 << 10, 1 << 12, 1 << 14, 1 << 16) if tier == 'quick' else (1 << 12, 1 << 14, 1 << 16, 1 << 18, 1 << 20)
+    sizes = (1 << 10, 1 << 12, 1 << 14, 1 << 16, 1 << 18) if tier == 'quick' else (1 << 12, 1 << 14, 1 << 16, 1 << 18, 1 << 20)
     def timed(f, szs, reps=3):
         """ascending sizes; stops as soon as one run needs more than 3 s of CPU (a super-linear family shows long
         before the large sizes; a linear one reaches them cheaply)"""
         res = []
         for n in szs:
-            r = _run('cost_probe.py', [f, n, 'time', reps if n < (1 << 16) else 2], timeout=1800)
+            r = _run('cost_probe.py', [f, n, 'time', reps if n < (1 << 16) else (2 if n < (1 << 18) else 1)], timeout=1800)
             out['evaluations'] += 1
             if 'error' in r:
                 return None, r['error']
@@ -179,7 +179,29 @@ def isolation_replay(p):
     return None
 
 
+# ---------------------------------------------------------------------------------------------------- C07
+def memory(tier, seed, info):
+    r = _run('mem_probe.py', [], timeout=900)
+    out = {'failures': [], 'known_hits': [], 'evaluations': len(r.get('cases', [])), 'distinct_nontrivial': len(r.get('cases', [])),
+           'summary': {'peaks': [(c['kind'], c['limit'], c['refs'], c['peak'], c['result']) for c in r.get('cases', [])]}}
+    if 'error' in r:
+        out['failures'].append(Failure({'probe': 'memory'}, 'probe-crash', 'memory probe crashed: ' + r['error']))
+        return out
+    for f in r['failures'][:2]:
+        out['failures'].append(Failure({'probe': 'memory'}, f['sig'], f['text']))
+    return out
+
+
+def memory_replay(p):
+    r = _run('mem_probe.py', [], timeout=900)
+    if 'error' in r:
+        return 'probe crashed: ' + r['error']
+    return r['failures'][0]['text'] if r['failures'] else None
+
+
 def run(prop, tier, seed, info):
+    if prop == 'C07':
+        return memory(tier, seed, info)
     if prop == 'C16':
         return cost(tier, seed, info)
     if prop == 'C17':
@@ -190,6 +212,8 @@ def run(prop, tier, seed, info):
 
 
 def replay(prop, p):
+    if prop == 'C07':
+        return memory_replay(p)
     if prop == 'C16':
         return cost_replay(p)
     if prop == 'C17':
